@@ -83,14 +83,17 @@ fn check_single(t: &[P4; 3], r: &mut Report) {
             // (1) position matches the carried barycentrics; scalar attribute is the same affine combination
             for c in 0..4 {
                 let want: f64 = (0..3).map(|j| l[j] * v[j][c]).sum();
-                if !((pos[c] - want).abs() <= 1e-5 * scale) { r.violation(key("attr-vs-position"), format!("output {oi} vertex {k}: position {pos:?} but carried barycentrics {l:?} give component {c} = {want}"), case()); return; }
+                r.margin("attr-vs-position", (pos[c] - want).abs(), 3e-6 * scale);
+                if !((pos[c] - want).abs() <= 3e-6 * scale) { r.violation(key("attr-vs-position"), format!("output {oi} vertex {k}: position {pos:?} but carried barycentrics {l:?} give component {c} = {want}"), case()); return; }
             }
             let ws: f64 = (0..3).map(|j| l[j] * SCAL[j] as f64).sum();
-            if !((cv.attrib.1 as f64 - ws).abs() <= 1e-4 * 11.0) { r.violation(key("scalar-attr"), format!("output {oi} vertex {k}: scalar attribute {} but barycentrics {l:?} give {ws}", cv.attrib.1), case()); return; }
+            r.margin("scalar-attr", (cv.attrib.1 as f64 - ws).abs(), 1e-5 * 11.0);
+            if !((cv.attrib.1 as f64 - ws).abs() <= 1e-5 * 11.0) { r.violation(key("scalar-attr"), format!("output {oi} vertex {k}: scalar attribute {} but barycentrics {l:?} give {ws}", cv.attrib.1), case()); return; }
             // (2) inside the triangle and the frustum
-            if l.iter().any(|x| !(*x >= -1e-5)) || !((l[0] + l[1] + l[2] - 1.0).abs() <= 1e-5) { r.violation(key("outside-triangle"), format!("output {oi} vertex {k}: barycentrics {l:?} are outside the input triangle"), case()); return; }
+            if l.iter().any(|x| !(*x >= -3e-6)) || !((l[0] + l[1] + l[2] - 1.0).abs() <= 3e-6) { r.violation(key("outside-triangle"), format!("output {oi} vertex {k}: barycentrics {l:?} are outside the input triangle"), case()); return; }
             let dd = dists(&pos);
-            if dd.iter().any(|x| !(*x <= 1e-5 * scale)) { r.violation(key("outside-frustum"), format!("output {oi} vertex {k}: position {pos:?} is outside the frustum (plane distances {dd:?})"), case()); return; }
+            r.margin("outside-frustum", dd.iter().cloned().fold(0.0, f64::max), 3e-6 * scale); r.margin("outside-triangle", l.iter().map(|x| -*x).fold(0.0, f64::max).max((l[0] + l[1] + l[2] - 1.0).abs()), 3e-6);
+            if dd.iter().any(|x| !(*x <= 3e-6 * scale)) { r.violation(key("outside-frustum"), format!("output {oi} vertex {k}: position {pos:?} is outside the frustum (plane distances {dd:?})"), case()); return; }
             uv[k] = [l[1], l[2]];
         }
         let a = area(&uv);
@@ -102,6 +105,7 @@ fn check_single(t: &[P4; 3], r: &mut Report) {
     }
     // (3) nothing lost, no overlap
     if pa < 1e-9 { r.h("visible-part-has-no-area"); if sum > 1e-6 { r.violation(key("area"), format!("visible part has no area but outputs cover {sum:.3e}"), case()); } return; }
+    r.margin("area", (sum - pa).abs(), 1e-5);
     if !((sum - pa).abs() <= 1e-5) { r.violation(format!("area|{}|{t:?}", if sum < pa { "lost" } else { "excess" }), format!("outputs cover area {sum:.6} of the barycentric chart, the visible part has area {pa:.6} ({} outputs)", out.len()), case()); return; }
     // sample points: each strictly-inside sample is in exactly one output
     let inside_poly = |p: [f64; 2], m: f64| { let n = poly.len(); (0..n).all(|i| { let (a, b) = (poly[i], poly[(i + 1) % n]); let e = (b[0] - a[0]) * (p[1] - a[1]) - (b[1] - a[1]) * (p[0] - a[0]); e / ((b[0] - a[0]).hypot(b[1] - a[1])).max(1e-12) > m }) };
